@@ -227,4 +227,19 @@ PROPS = {
         "assumptions": ["Spline evaluation itself is judged by C12; Dubins oracle words are kept only if their forward-integrated end pose hits the target",
                         "verdict covers only the executions sampled"],
     },
+    "C15": {
+        "units": [{"name": "c15_a", "src": "harness/c15.cpp", "defs": ["-DTS=0"], "flavor": "asan", "shards": {"quick": 8, "thorough": 16}},
+                  {"name": "c15_b", "src": "harness/c15.cpp", "defs": ["-DTS=1"], "flavor": "asan", "shards": {"quick": 8, "thorough": 16}}],
+        "rule": "cases = operation histories: random programs (1..200 operations of compose, inverse, exp, rplus, *=, +=, same-scalar cast, project(lift)) over a "
+                "register file of 8 elements and 4 tangents started from Identity / Random / exp / coefficient constructors; homogeneous chains of 1e3 "
+                "(quick) / 1e5 (thorough) steps (x*=g, x+=a, inverse ping-pong, half-turn products); constant-velocity integration through six "
+                "boost::odeint steppers x {integrate_const, integrate_n_steps, do_step}, 1..300 (1e4) steps, with every stage value observed through the "
+                "adaptor hook; all checks after EVERY operation with n = operations so far; distinct = distinct histories",
+        "floors": {"min_evaluations": {"quick": 100000, "thorough": 3000000},
+                   "cells": [r"SO3d\.canonical\.compose", r"SE3d\.accuracy\.chain\(half-turn products\)", r"Galileid\.unit\.\*=", r"B<SO3d,R2d,SE2d>\.accuracy\.rplus\|long_program",
+                             r"SE2d\.odeint\.constant_velocity\|fehlberg78", r"SE2d\.accuracy\.project\(lift\)"],
+                   "counters": ["C15.odeint_stage_values_observed", "C15.operations"]},
+        "assumptions": ["shadow = long-double matrix products / inverses / scaling-and-squaring exponentials of the same program; n counts every operation executed so far "
+                        "(odeint: stage evaluations + steps)", "verdict covers only the executions sampled"],
+    },
 }
